@@ -218,6 +218,13 @@ func init() {
 				pairs = append(pairs, pair{allOps[r.Intn(len(allOps))], allOps[r.Intn(len(allOps))]})
 			}
 		}
+		// one pair per core function (both calls go through the same lock region), always with
+		// replies held back so that two requests outstanding at once become visible
+		corePairs := []pair{{"ReadCoils", "ReadDiscreteInputs"}, {"ReadCoil", "ReadCoils"}, {"ReadRegisters", "ReadUint32s"}, {"ReadBytes", "ReadFloat64"},
+			{"WriteRegisters", "WriteUint32"}, {"WriteBytes", "WriteFloat64s"}, {"WriteCoil", "WriteCoil"}, {"WriteCoils", "WriteCoils"}, {"WriteRegister", "WriteRegister"},
+			{"ReadCoils", "WriteCoils"}, {"ReadRegisters", "WriteRegister"}}
+		nCore := len(corePairs)
+		pairs = append(corePairs, pairs...)
 		var wg sync.WaitGroup
 		sem := make(chan struct{}, 16)
 		for pi, p := range pairs {
@@ -228,7 +235,7 @@ func init() {
 				defer func() { <-sem }()
 				pr := NewRng(seed).Fork(uint64(8000 + pi))
 				kind := "tcp"
-				if pi%9 == 0 {
+				if pi%9 == 0 && pi >= nCore {
 					kind = "rtuovertcp"
 				}
 				mc, conn, err := newScriptedClient(kind)
@@ -238,7 +245,7 @@ func init() {
 				}
 				dev := &concDevice{conn: conn, rtu: isRTUKind(kind)}
 				iters := 150
-				if pi%3 == 1 {
+				if pi%3 == 1 || pi < nCore {
 					dev.delay = 300 * time.Microsecond // replies held back: an overlapping second request becomes visible
 					conn.BlockFor = 50 * time.Millisecond
 					iters = 12
@@ -283,7 +290,17 @@ func init() {
 					}(g, name)
 				}
 				close(start)
-				inner.Wait()
+				finished := make(chan struct{})
+				go func() { inner.Wait(); close(finished) }()
+				select {
+				case <-finished:
+				case <-time.After(30 * time.Second):
+					// a public call never returned (e.g. a mutex that was copied while held): the
+					// goroutines are abandoned
+					res.Add(Finding{Kind: "property", Check: "conc-hang", Line: fmt.Sprintf("%s || %s on %s", p.a, p.b, kind), Impl: "at least one call did not return within 30 s",
+						Expect: "every call returns (its reply, or an error)", Note: "a caller never received the reply to its own request, nor an error"})
+					return
+				}
 				if dev.overlap > 0 || dev.badFrames > 0 {
 					res.Add(Finding{Kind: "property", Check: "atomic-exchange", Line: fmt.Sprintf("%s || %s on %s", p.a, p.b, kind),
 						Impl: fmt.Sprintf("%d overlapping requests, %d malformed frames of %d", dev.overlap, dev.badFrames, dev.frames), Expect: "one outstanding request, contiguous frames"})
